@@ -30,7 +30,8 @@ CLAIMED["C09"] = dict(
    text="Decision logic proved outright over a model whose data is regenerated from the source on every run: default table by executing aln_param_init on "
         "the biotype x type grid, override guards and --type word chain by parsing. Theorems: an override >= 0 replaces exactly its own field (any carrier, any values), "
         "explicit default = implicit, single overrides, README defaults (dna/internal numbers, CorBLOSUM66_13plus / Gonnet250 reference copies), documented words select their "
-        "type, mismatching types rejected. Tie: bit-exact unit correspondence of aln_param_init/set_aln_type; end-to-end PARAM-hook observation; CLI vs library.",
+        "type, mismatching types rejected. Tie: bit-exact unit correspondence of aln_param_init/set_aln_type; end-to-end PARAM-hook observation; CLI vs library. "
+        "The command-line front end is modelled too (Model/Cli.lean: glibc getopt_long_only, atoi, atof narrowed to float, early exits, input list; all tables regenerated into Gen/Cli.lean by translator T5) and tied to the real main() by the `cli` op (library entry points replaced by recorders): cli_override_exact / cli_run_config (last occurrence wins, independent of option order and file positions), cli_inputs_order, cli_type_words, cli_defaults, cli_early_exits, and cli_to_dp / cli_gpo_override_to_dp composing argv with C09_override_exact down to the DP parameters.",
    note="Out-of-range type values represented by executed samples (-1,5,6,99). RNA penalties are not pinned (README gives no numbers). Trusted: translators T1/T2, Lean kernel.",
    technique="Lean 4 `decide` over regenerated tables + generic case analysis; differential correspondence; end-to-end hook oracle",
    ref="4 C09")
@@ -117,7 +118,10 @@ CLAIMED["C05"] = dict(
         "a code inside the tables it indexes (executed alphabets), expansion of well-shaped Hirschberg paths stays inside the path buffer, overflowing penalties are rejected, "
         "writers index rows in bounds. Memory safety of the C text itself is NOT proved: it is carried by (a) bit-exact correspondence of the reader model with the real readers on a "
         "malformed stream and (b) a sanitizer-instrumented search: ASan+UBSan+LSan CLI on structure-aware mutations x option strings x bad paths with hang detection, valgrind "
-        "memcheck subset (thorough).",
+        "memcheck subset (thorough). "
+        "Pipeline level (Props/C05Pipeline): kalignRun_never_fuel, C05_controller_never_faults, C05_path_read_in_bounds hold unconditionally (any score carrier, any comparison "
+        "outcomes: all path/kernel/blit accesses in bounds, cut column in range); kalignRun_never_faults_partial reduces 'the composed model never reaches a fault value' to two "
+        "named hypotheses about binary32 values (UPGMA sees finite entries; the meetup contract holds), which core Lean cannot decide. Coverage-guided libFuzzer target as extra search.",
    note="PARTIAL by nature: heap behaviour of libc/libgomp, stack depth of recursions, OOM paths are not modelled; the theorem part covers readers/tables/path expansion only.",
    technique="Lean 4 proofs about fault-aware models + sanitizer-instrumented differential/fuzz search",
    ref="4 C05")
